@@ -434,7 +434,7 @@ def _jobs_for(prop, tier):
         return [j for j in jobs_option_below(tier) if j[1][3] == 'combinations'] + jobs_combinations(tier) + jobs_axis0(tier, 'combinations')
     if prop == 'C03':
         return jobs_c03(tier) + jobs_option_reduce(tier) + jobs_axis(tier, ('reduce',)) + jobs_reduce_nonlocal(tier)
-    return {'C02': jobs_c02, 'C03': jobs_c03, 'C04': jobs_c04, 'C06': (lambda t: jobs_c06(t) + jobs_axis(t, ('sort', 'argsort')) + jobs_numpy_sort(t) + jobs_sort_nonlocal(t) + jobs_option_sort(t)), 'C08': (lambda t: jobs_c08(t) + jobs_numpy(t) + jobs_union(t) + jobs_reverse_merge(t) + jobs_record_merge(t) + jobs_list_merge(t) + [j for j in jobs_record_named(t) if j[0] is h_record_mergemany_named] + jobs_merge_union(t) + jobs_union_ops(t)), 'C17': jobs_c17, 'C12': jobs_numpy, 'C10': (lambda t: jobs_c10(t) + [j for j in jobs_record_named(t) if j[0] is h_record_field_key] + jobs_project(t) + [j for j in jobs_option_below(t) if j[1][3] == 'getitem_field'] + jobs_record_setitem(t)), 'C05': jobs_c05, 'C09': jobs_c09}.get(prop, lambda t: [])(tier)
+    return {'C02': jobs_c02, 'C03': jobs_c03, 'C04': jobs_c04, 'C06': (lambda t: jobs_c06(t) + jobs_axis(t, ('sort', 'argsort')) + jobs_numpy_sort(t) + jobs_sort_nonlocal(t) + jobs_option_sort(t)), 'C08': (lambda t: jobs_c08(t) + jobs_numpy(t) + jobs_union(t) + jobs_reverse_merge(t) + jobs_record_merge(t) + jobs_list_merge(t) + [j for j in jobs_record_named(t) if j[0] is h_record_mergemany_named] + jobs_merge_union(t) + jobs_union_ops(t)), 'C17': (lambda t: jobs_c17(t) + jobs_record_keys(t)), 'C12': jobs_numpy, 'C10': (lambda t: jobs_c10(t) + [j for j in jobs_record_named(t) if j[0] is h_record_field_key] + jobs_project(t) + [j for j in jobs_option_below(t) if j[1][3] == 'getitem_field'] + jobs_record_setitem(t)), 'C05': jobs_c05, 'C09': jobs_c09}.get(prop, lambda t: [])(tier)
 
 
 # ------------------------------------------------------------------------------------------------ C01: getitem_next of list nodes
@@ -4735,3 +4735,87 @@ def jobs_option_sort(tier):
     if tier != 'quick':
         q += [((0, 1, 1, 0, 1), (0, 0, 1, 1, 1)), ((1,), (0,)), ((0, 1, 0, 1), (0, 1, 1, 2)), ((0, 0, 0), (0, 0, 0))]
     return [(h_option_sort, a, 1800) for a in q]
+
+
+# ------------------------------------------------------------------------------------------------ C17 / C10: field queries of a record array
+def s_to_string(eng, fr, ins, st, name, argv):
+    """std::to_string of a concrete small integer: a real SSO string"""
+    sret, v = argv[0], z3.simplify(argv[1])
+    if not z3.is_bv_value(v):
+        raise Unsupported('std::to_string of a symbolic value')
+    t = str(v.as_signed_long())
+    o = st.mem.o[sret.obj]
+    o.cells[sret.off] = (Ptr(sret.obj, sret.off + 16), 8)
+    o.cells[sret.off + 8] = (BV(len(t)), 8)
+    for j, ch in enumerate(t.encode() + b'\0'):
+        o.cells[sret.off + 16 + j] = (BV(ch, 8), 1)
+    for j in range(len(t) + 1, 16):
+        o.cells[sret.off + 16 + j] = (BV(0, 8), 1)
+    return None
+
+
+def s_string_fill(eng, fr, ins, st, name, argv):
+    """std::string::_M_construct(n, c): n copies of c (a concrete small n: what std::to_string starts from)"""
+    this, n, c = argv[0], z3.simplify(argv[1]), argv[2]
+    if not z3.is_bv_value(n) or n.as_long() > 15:
+        raise Unsupported('std::string(n, c) with a symbolic or long n')
+    k = n.as_long()
+    o = st.mem.o[this.obj]
+    o.cells[this.off] = (Ptr(this.obj, this.off + 16), 8)
+    o.cells[this.off + 8] = (BV(k), 8)
+    c8 = c if c.size() == 8 else z3.Extract(7, 0, c)
+    for j in range(16):
+        o.cells[this.off + 16 + j] = (c8 if j < k else BV(0, 8), 1)
+    return None
+
+
+@guard
+def h_record_keys(names, nfields, key):
+    """RecordArray::keys / haskey / numfields: a record array lists its field names in declaration order (a tuple, which has none, lists the
+    positions "0", "1", ...), has a key exactly when it is one of those names or a position in range, and counts its fields"""
+    named = names is not None
+    nc = NodeCtx(['REC', 'IA', 'IDX', 'CNT', 'UTL', 'KD', 'IDS'], [], unwind=max(16, 6 * nfields + 12))
+    nc.m.eng.stubs.update(string_stubs(nc))
+    nc.m.eng.stubs['_ZNSt7__cxx119to_stringEl'] = s_to_string
+    nc.m.eng.stubs['_ZNSt7__cxx1112basic_stringIcSt11char_traitsIcESaIcEE12_M_constructEmc'] = s_string_fill
+    if named:
+        this, vals, lens = build_named_record(nc, tuple(names), 2)
+        expect = list(names)
+    else:
+        this, vals, lens = build_record(nc, nfields, 2)
+        expect = [str(i) for i in range(nfields)]
+    nc.m.record('ret', {})
+    o1 = nc.m.call('_ZNK7awkward11RecordArray4keysB5cxx11Ev', [Ptr('ret', 0), this])
+    obls = [('keys does not raise', o1.raised)]
+    rec = o1.mem.o['ret']
+    from .llbmc import is_ptr
+    b, e = rec.cells[0][0], rec.cells[8][0]
+    got = []
+    if is_ptr(b):
+        bc = [q for g, q in nodeh.ptr_cases(b) if q.obj is not None]
+        ec = [q for g, q in nodeh.ptr_cases(e) if q.obj is not None]
+        if bc:
+            for off in range(bc[0].off, ec[0].off, 32):
+                got.append(_read_string(o1.mem, Ptr(bc[0].obj, off)))
+    obls.append(('keys are the field names in declaration order (%s)' % got, z3.BoolVal(got != expect)))
+    o2 = nc.m.call('_ZNK7awkward11RecordArray9numfieldsEv', [this])
+    obls.append(('numfields counts the fields', z3.Or(o2.raised, o2.ret != len(expect))))
+    cells = {}
+    _string_cells(cells, 0, 'key', key)
+    kp = nc.m.record('key', cells, const=True)
+    o3 = nc.m.call('_ZNK7awkward11RecordArray6haskeyERKNSt7__cxx1112basic_stringIcSt11char_traitsIcESaIcEEE', [this, kp])
+    try:
+        has = key in expect or (0 <= int(key) < len(expect))
+    except ValueError:
+        has = key in expect
+    r3 = o3.ret if o3.ret.size() == 1 else z3.Extract(0, 0, o3.ret)
+    obls.append(('haskey("%s") is %s' % (key, has), z3.Or(o3.raised, (r3 == 1) != z3.BoolVal(has))))
+    return mdischarge(nc.m, 'RecordArray %s keys / haskey("%s")' % (list(names) if named else 'tuple of %d' % nfields, key), obls, [], replay=None,
+                      extra=dict(bounds='field names and the key concrete (case split)'))
+
+
+def jobs_record_keys(tier):
+    q = [(('a', 'b', 'c'), 3, 'b'), (('x', 'y'), 2, 'z'), (None, 3, '2'), (None, 2, '2'), (('x', 'y'), 2, '1')]
+    if tier != 'quick':
+        q += [((), 0, 'a'), (None, 0, '0'), (('ab', 'a'), 2, 'a'), (None, 1, 'x')]
+    return [(h_record_keys, a, 900) for a in q]
